@@ -26,7 +26,7 @@ M("c05-uncancel-when-parent-cancelled", "C05", A, EX,
   "            if self._cancel_called and not self._parent_cancellation_is_visible_to_us:\n                # For each",
   "            if self._cancel_called:\n                # For each", ["R05-b"])
 M("c05-no-transfer", "C05", A, EX,
-  "                    self._parent_scope._pending_uncancellations += (\n                        self._pending_uncancellations\n                    )\n", "", ["R05-b"])
+  "                    if self._parent_scope._host_task is self._host_task:\n                        self._parent_scope._pending_uncancellations += (\n                            self._pending_uncancellations\n                        )\n", "", ["R05-b"])
 M("c05-transfer-not-zeroed", "C05", A, EX, "                    self._pending_uncancellations = 0\n", "", ["R05-b"])
 M("c05-count-every-task", "C05", A, DL,
   "                    if (\n                        task is origin._host_task\n                        and origin._pending_uncancellations is not None\n                    ):\n                        origin._pending_uncancellations += 1",
@@ -56,3 +56,8 @@ N("c05-n-timer-is-not-none", "C05", A, EX,
 # from seeded change C05/b
 M("c05-setter-keeps-old-timer", "C05", A, "CancelScope.deadline@setter",
   "        if self._timeout_handle is not None:\n            self._timeout_handle.cancel()\n            self._timeout_handle = None\n\n", "", ["R05-c"])
+
+# F11 (found via a round-2 seeding agent's probe): the count taken on a child task was handed to the group's scope (parent task)
+M("c05-F11-revert-transfer-across-tasks", "C05", A, "CancelScope.__exit__",
+  "                    if self._parent_scope._host_task is self._host_task:\n                        self._parent_scope._pending_uncancellations += (\n                            self._pending_uncancellations\n                        )\n",
+  "                    self._parent_scope._pending_uncancellations += (\n                        self._pending_uncancellations\n                    )\n", ["R05-b"])
